@@ -242,6 +242,9 @@ func (x *Exec) applyContract(fr *Frame, callee *ssa.Function, con *Contract, arg
 	pre := st.clone()
 	// requires
 	vars := x.contractVars(callee, args, nil, site)
+	savedPC := x.curPC
+	x.curPC = bc
+	defer func() { x.curPC = savedPC }()
 	env := x.specEnv(pre, pre, vars)
 	x.bindLets(con, env, key)
 	for _, cl := range con.Requires {
@@ -483,6 +486,20 @@ func (x *Exec) callDynamic(fr *Frame, sig *types.Signature, fnv Value, args []Va
 			arg = x.term(a0, pt, site)
 		} else if sortOfOrInt(pt) == SInt {
 			arg = T(SVal, app("v_int", x.term(a0, pt, site).S))
+		}
+	}
+	if x.TopCon != nil && x.TopCon.Mode == "spec" && sig.Params().Len() == 0 && sig.Results().Len() == 1 && sortOfOrInt(sig.Results().At(0).Type()) == SStr {
+		if _, ok := x.E.Funcs["strCallH"]; ok {
+			// a String method value obtained by reflection (getStringer): its call is the spec function strCallH
+			// (assumed pure; for a native Stack/Condition it is the String method itself)
+			ast, err := parseExpr("strCallH(f)")
+			if err == nil {
+				env := x.specEnv(st, fr.entrySt, map[string]SpecVar{"f": {T: f}})
+				if v, err := env.comp(ast); err == nil {
+					x.Assumed["dynamic call of a String method value obtained by reflection: modelled by the spec function strCallH (assumed pure)"] = true
+					return []Value{VT(x.C.Def("strcall", v.T), sig.Results().At(0).Type())}
+				}
+			}
 		}
 	}
 	n := x.comp(st, "G_calls_len")
